@@ -17,21 +17,21 @@ CLAIMS = {
             "Decides: the block-construct table extracted from all 38 BlockBase.match instances and the 18 END statement classes agree with "
             "the Fortran 2003/2008 rules (opening/END pair, name/label comparison flags, bare END refused); the generic engine, specialised "
             "per call site, returns a match only with found_end and raises on exactly the disagreeing (opening, END/intermediate) name pairs "
-            "(finite name domain). Not decided: absorption of stray statements for every nest; unbalanced parentheses. Also: EndStmtBase.match and BracketBase.match decided as tables; no full-match pattern anchors only some alternatives of an alternation (391 patterns); each of the 40 x[1:-1] delimiter strips is dominated by tests of both ends; a piece of statement text used only under a content test is not dropped when the test fails; the nameless-main fallback is entered only on NoMatchError; 1 known finding (END INTERFACE generic-spec never compared, F28).", "DESIGN.md §4 C08"),
+            "(finite name domain). Not decided: absorption of stray statements for every nest; unbalanced parentheses. Also: EndStmtBase.match and BracketBase.match decided as tables; no full-match pattern anchors only some alternatives of an alternation (391 patterns); each of the 40 x[1:-1] delimiter strips is dominated by tests of both ends; a piece of statement text used only under a content test is not dropped when the test fails; the nameless-main fallback is entered only on NoMatchError; 1 known finding (END INTERFACE generic-spec never compared, F28). Further: CallBase.match as a table with the re-assembly invariant; an END-class statement that can never be a body statement is not absorbed on a label mismatch (2 known findings, F40).", "DESIGN.md §4 C08"),
     "C09": ("typestate (acquire/release on all normal and exceptional exits) over a path-sensitive abstract interpreter; ownership lints",
             "Decides: every symbol-table scope entered by a reader-level matcher is left on every normal and exceptional exit and a failed "
             "match removes its table (38 specialisations of the block engine + Main_Program0.match, exception edges from explicit-raise "
             "summaries over the resolved call graph); the parser factory resets tables and registry on every returning path; only the "
             "factory writes the registry; no parser code writes class/module-level state outside three confirmed owners; the tokeniser "
             "memo is keyed by all arguments and never mutated by callers; symbol-table keys are lower-cased consistently. Not decided: "
-            "equality of results across histories. Also: SYMBOL_TABLES.remove is never reached while the function's scope is still open; every scalar flag a call site binds is tracked per instance.", "DESIGN.md §4 C09"),
+            "equality of results across histories. Also: SYMBOL_TABLES.remove is never reached while the function's scope is still open; every scalar flag a call site binds is tracked per instance. Further: a scoping unit entered inside another scope always gets a fresh table (an existing top-level table is re-entered only outside any scope); SymbolTables.remove tries the children of the current scope before the top-level tables.", "DESIGN.md §4 C09"),
     "C06": ("who-may-call over the resolved call graph; exception-class conversion table; guard classification of explicit raises; per-call-site protocol check; dominance of presence tests over raising str.index; format-arity lint; nullable-result contradiction rule; per-None-pattern abstract interpretation of printers; emptiness-before-index dominance",
             "Decides: no call path from the parse/print/read entry points reaches a process-terminating call (3 known sites echoed); every fparser "
             "exception class raised as a signal is converted at Program.__new__; each of the 77 explicit raises of a non-convertible class is "
             "discharged by a guard classification and a matcher raise guarded by the content of the parsed text is a violation (1 known); "
             "source files are opened with the registered decode-error handler; per block-engine call site, every get_*() protocol method exists "
             "on every class its receiver can be; symbol-table clean-up keys are case-normalised. Not decided: termination, the time bound, "
-            "implicit exceptions (IndexError etc.). Also: every str.index on matched text is dominated by a test proving the needle present; every literal format expression supplies all its fields (197); a get_*() result tested for None at one site of the block engine is not dereferenced unguarded at another; printers/accessors dereference an optional element only on paths that established it is not None (138 classes); matchers index their text parameter or a piece cut from it only after an emptiness test (79 sites); scope clean-up order (leave, then remove).", "DESIGN.md §4 C06"),
+            "implicit exceptions (IndexError etc.). Also: every str.index on matched text is dominated by a test proving the needle present; every literal format expression supplies all its fields (197); a get_*() result tested for None at one site of the block engine is not dereferenced unguarded at another; printers/accessors dereference an optional element only on paths that established it is not None (138 classes); matchers index their text parameter or a piece cut from it only after an emptiness test (79 sites); scope clean-up order (leave, then remove). Further: asserts that depend on the matched text are implied by earlier tests; a possibly-None line dereferenced by the reader is absorbed by next()'s handler; the inverse map and its construction look up only keys they hold; isinstance chains over list children cover every grammar alternative; int() operands convert for every string their pattern matches; regex match objects are dereferenced only after a None test (49 sites).", "DESIGN.md §4 C06"),
     "C10": ("ownership lint, typestate on the node constructor, sibling-contradiction rule between _set_parent and walk; who-may-construct lint",
             "Decides: only _set_parent/Base.__init__ assign .parent; Base.__new__ parents the children of every node it builds before init/return "
             "(typestate over its paths); every init stores what it is given into items/content; _set_parent and walk both fully descend into "
@@ -41,17 +41,17 @@ CLAIMS = {
             "Decides: for each of 661 node classes the tuple returned by the resolved __getnewargs__ binds to the resolved __new__, the _deepcopy "
             "flag is True and under it __new__ returns a fresh object without running a matcher (each distinct __new__ interpreted abstractly, "
             "flag forwarding checked); every attribute __getnewargs__ reads is assigned at every object.__new__ construction site; no class "
-            "overrides the copy protocol otherwise. Not decided: equality of the copy's text/structure. Also: no class reachable from a node (reader items, readers, format) stores an open file, lambda, nested function, generator or lock without a __getstate__/__reduce__ (1 known finding: FortranFileReader holds the open file, F19); the reader keeps no item it has handed out besides its queue.", "DESIGN.md §4 C18"),
+            "overrides the copy protocol otherwise. Not decided: equality of the copy's text/structure. Also: no class reachable from a node (reader items, readers, format) stores an open file, lambda, nested function, generator or lock without a __getstate__/__reduce__ (1 known finding: FortranFileReader holds the open file, F19); the reader keeps no item it has handed out besides its queue. Further: every node class is importable by module and qualified name (no class local to a function).", "DESIGN.md §4 C18"),
     "C04": ("path-sensitive dataflow on the quote state; structural lints of the ';' splitter and of splitquote; regex obligations",
             "Decides necessary conditions of layout independence: the quote state of handle_inline_comment is threaded through every "
             "continuation loop and a comment ends character context; ';' is split on the tokenised line only with label/name re-extraction "
             "in the right order and the replace map undone; splitquote types quoted regions as String and case-folds only unquoted text; "
-            "label/construct-name extraction obligations. Not decided: tree equality over the layout space. Also: directive items are excluded from ';' splitting, an empty ';' part is skipped, later parts carry exactly their own label/name; case folding of literal-bearing lines only outside String items.", "DESIGN.md §4 C04"),
+            "label/construct-name extraction obligations. Not decided: tree equality over the layout space. Also: directive items are excluded from ';' splitting, an empty ';' part is skipped, later parts carry exactly their own label/name; case folding of literal-bearing lines only outside String items. Further: one whole iteration of the free-form continuation loop and handle_inline_comment decided as tables; a comment line inside a continuation is recognised whatever the quote state.", "DESIGN.md §4 C04"),
     "C05": ("bounded-exhaustive decision of column predicates and the detector regex (finite tables), interpreted from the AST",
             "Decides: the form detector votes free for no label field/comment/continuation line and for every statement starting in columns "
             "1-5 (354 lines); _is_fix_comment/_is_fix_cont agree with the property's comment introducers and continuation marks; the label "
             "conversion is total and blank-insensitive on columns 1-5 (242 fields); quote state threading; splitquote typing. Not decided: "
-            "tree equality of the two renderings. Also: every physical line is tab-expanded and right-stripped before its columns are interpreted; '!' in column 6 obligations.", "DESIGN.md §4 C05"),
+            "tree equality of the two renderings. Also: every physical line is tab-expanded and right-stripped before its columns are interpreted; '!' in column 6 obligations. Further: the label extraction of the fixed-form branch is interpreted as a whole (242 fields).", "DESIGN.md §4 C05"),
     "C07": ("consistency lint on message construction; who-raises-with-what; shared counter/span dataflow",
             "Decides (narrow): a quoted source line is source_lines[linecount-1] of the reader whose linecount is printed; every "
             "FortranSyntaxError is raised with the function's reader; the line counter moves by one per line taken/given back on every path "
@@ -61,20 +61,20 @@ CLAIMS = {
             "position of all 38 block-engine instances and around program units, both collectors in every round; every reader item and node "
             "is kept or given back on every path and a no-match restores everything; the ignore filter is the single exit of the item loop; "
             "Directive==Comment code; a comment ends character context; comments queue behind their statement. Not decided: exact placement "
-            "for every position. Also: every trailing-comment site of handle_inline_comment computes the inline flag and no whole-line comment site sets it.", "DESIGN.md §4 C11"),
+            "for every position. Also: every trailing-comment site of handle_inline_comment computes the inline flag and no whole-line comment site sets it. Further: reader options are forwarded by every reader subclass; the directive-prefix patterns anchor all alternatives; handle_inline_comment decided as a table.", "DESIGN.md §4 C11"),
     "C12": ("queue-discipline table; path-sensitive counting; event abstraction (read/append/endline) over get_source_item; finite decision table of the continuation joiner",
             "Decides: who pushes/pops which end of the item queue (';' parts reversed to the front, give-back forwarded to the include reader, "
             "no foreign queue access); every look-ahead is undone; linecount +-1 per line on every path; span start is the counter after the "
             "first read and span end the line of the last appended text on every path to every Line construction. Not decided: item "
-            "text/span equality for every layout. Also: free-form continuation joining decided as a table (trailing '&', leading '&' only as first nonblank, '&' inside literals; 20 lines); ';' part construction (empty parts, own label/name).", "DESIGN.md §4 C12"),
+            "text/span equality for every layout. Also: free-form continuation joining decided as a table (trailing '&', leading '&' only as first nonblank, '&' inside literals; 20 lines); ';' part construction (empty parts, own label/name). Further: label/construct-name extraction obligations incl. 'name: &'; handle_inline_comment decided as a table.", "DESIGN.md §4 C12"),
     "C13": ("structural lint of the include search; shared queue and class-list analyses; regex obligations",
             "Decides: directories searched in order with a break at the first existing file; unresolved include returned as an item and "
             "Include_Stmt tried at every position in both directive modes; nested reader gets path/include_dirs/ignore_comments; get/put "
-            "symmetry across readers; INCLUDE-line regex obligations. Not decided: tree equality for every split point. Also: unresolved Include_Stmt nodes collected before an opener are restored on no-match (typestate shared with C11).", "DESIGN.md §4 C13"),
+            "symmetry across readers; INCLUDE-line regex obligations. Not decided: tree equality for every split point. Also: unresolved Include_Stmt nodes collected before an opener are restored on no-match (typestate shared with C11). Further: the nested include reader receives every reader option; recognition of the INCLUDE line decided before name extraction.", "DESIGN.md §4 C13"),
     "C15": ("statically folded regex literals decided by enumeration; gating/dominance lint; straight-line interpretation of the replacement; must-pass-through on the flow engine",
             "Decides: the three sentinel regexes accept exactly the property's sentinel forms and are compiled for the right source forms "
             "(FortranFormat's properties interpreted for the 4 forms); the replacement puts exactly two blanks at the sentinel; every "
-            "replacement is gated by the enabling flag and precedes comment classification on both routes. Not decided: tree equality. Also: in fixed form every line read from the source (also by helper methods found through the call graph) passes the sentinel replacement before comment classification or return.",
+            "replacement is gated by the enabling flag and precedes comment classification on both routes. Not decided: tree equality. Also: in fixed form every line read from the source (also by helper methods found through the call graph) passes the sentinel replacement before comment classification or return. Further: the sentinel pattern is applied to the tab-expanded line; every reader subclass forwards include_omp_conditional_lines.",
             "DESIGN.md §4 C15"),
     "C03": ("table extraction vs. standard oracle; specialisation of the binary-operator engine; regex obligations by exhaustive enumeration; unary engine and Pattern.rsplit/lsplit as finite tables",
             "Decides: the 12-level expression table extracted from the match methods equals F2003 R701-R723 (operator, operand classes, split "
@@ -87,13 +87,13 @@ CLAIMS = {
             "Decides: Cpp_*_Stmt classes == CPP_CLASS_NAMES; for the 14 directive kinds of the property the reader's '#' predicate and exactly "
             "the expected class's head pattern accept the canonical samples; backslash continuation yields one CppDirective item before any "
             "Fortran interpretation; the directive matcher is tried at every position and gives its peeked item back; directives before a "
-            "failed construct are restored; ';' splitting looks at the tokenised line only. Not decided: position equality for every insertion. Also: match_cpp_directive tries the whole registry for every line; directive items are not ';'-split; backslash-newline splicing adds or removes nothing at the joints (table).",
+            "failed construct are restored; ';' splitting looks at the tokenised line only. Not decided: position equality for every insertion. Also: match_cpp_directive tries the whole registry for every line; directive items are not ';'-split; backslash-newline splicing adds or removes nothing at the joints (table). Further: in fixed form no '#' line is classed as a comment line (all strict/f2py combinations).",
             "DESIGN.md §4 C14"),
     "C16": ("oracle set comparison; shared scope typestate; dominance of the shadowing lookup over every intrinsic match; must-pass-through for registration; table agreement on the import-time snapshot",
             "Decides: scoping classes == the property's list and each opens a block-engine call site; enter/exit pairing on all paths; lookup "
             "consults own symbols, used modules, ancestors only; an intrinsic reference is produced only after an unsuccessful lookup of the "
             "name as written in the current scope; matched declarations/USEs are always recorded; table keys are case-normalised; create() "
-            "clears the tables. Not decided: table contents for every program; cache interactions during backtracking. Also: per instance whose opener is a scoping region a match is reported only with a table registered; Intrinsic_Name.function_names equals keys(generic) ∪ keys(specific) per standard with well-formed arity entries.", "DESIGN.md §4 C16"),
+            "clears the tables. Not decided: table contents for every program; cache interactions during backtracking. Also: per instance whose opener is a scoping region a match is reported only with a table registered; Intrinsic_Name.function_names equals keys(generic) ∪ keys(specific) per standard with well-formed arity entries. Further: enter_scope never re-enters an existing table while inside a scope.", "DESIGN.md §4 C16"),
     "C17": ("registry inclusion over both linked grammars (alt + use edges); override-reachability triage; delegation-first dominance; finite regex-language inclusion; alias-mutation lint on class bodies",
             "Decides: every rule/alternative of the linked 2003 registry (550 rules) is reachable in the same order in the 2008 registry; engine "
             "identity tests name the 2008 overrides; by-name constructions of overridden classes are covered; no 2008 class/keyword reachable "
@@ -104,19 +104,19 @@ CLAIMS = {
             "Decides necessary conditions of the round trip: every class that can build a node resolves a printer; the tuple arities every match "
             "can return are accepted by the resolved init and agree with the constant indices, format conversion counts, unpack counts and "
             "length guards of the resolved printer (310 classes); every element that can hold a node or input text is read by the printer "
-            "(243 classes). Not decided: equality of trees/text after re-parsing. Also: elements read in value position (R3 refined), block printers, WORDClsBase as a table, dead input pieces, the intrinsic arity error is raised only after the shadowing lookup, optional elements printed/dereferenced only under a None test (per None-pattern, 138 classes), content[start_idx].", "DESIGN.md §4 C01"),
+            "(243 classes). Not decided: equality of trees/text after re-parsing. Also: elements read in value position (R3 refined), block printers, WORDClsBase as a table, dead input pieces, the intrinsic arity error is raised only after the shadowing lookup, optional elements printed/dereferenced only under a None test (per None-pattern, 138 classes), content[start_idx]. Further: text cut behind a delimiter found with find()/index() starts exactly len(delimiter) later (115 sites), keyword prefix tests compare len(KEYWORD) characters and the text continues there (83).", "DESIGN.md §4 C01"),
     "C02": ("path-sensitive may-taint (placeholder text must pass the inverse map before reaching a constructor); case-folding lint on leaf flows; ownership/shape lints",
             "Decides: literal-bearing leaves store input text without case folding; in the 52 functions that tokenise a line no child node is "
             "built from placeholder-bearing text; Program.match returns what it collected (1 known finding); no reader error becomes "
             "end-of-input (1 known finding); all 118 line-level classes print label and construct name through StmtBase.tofortran, which "
             "includes label/name/text on every path; the inverse map is bounded and ordered; give-backs are reversed; splitquote never "
-            "folds literals; arity/element coverage shared with C01; consumed nodes kept or restored. Not decided: token-sequence equality. Also: nested-key expansion in string_replace_map per occurrence; string engines as tables; case folding only outside String items; ';' splitter (empty parts skipped).",
+            "folds literals; arity/element coverage shared with C01; consumed nodes kept or restored. Not decided: token-sequence equality. Also: nested-key expansion in string_replace_map per occurrence; string engines as tables; case folding only outside String items; ';' splitter (empty parts skipped). Further: delimiter offsets and keyword prefixes (shared with C01); handle_inline_comment with splitquote decided as a table (20 rows: '!' inside literals, doubled quotes, continued literals).",
             "DESIGN.md §4 C02"),
     "C19": ("prefix viability of printed keywords on the sre parse tree of each class's matcher; attribute-protocol and purity lints; may-taint of tokenised text over the 85 process_item methods; queue-discipline lint; finite table of the label field",
             "Decides over fparser.one's statement classes: the literal keyword prefix each printer emits is a viable prefix of the class's own "
             "match regex; every block statement names an END class whose regex accepts the END line it prints; blocks print all content; "
             "printers read only assigned attributes; analyze() never mutates a printed attribute in place. Not decided: equality of "
-            "regenerated statements. Also: FortranParser.put_item pushes to the front of the reader's queue; tokenised text reaches a printed attribute only with the replace map undone (85 process_item methods, 26 reasoned name/label positions); the item of a statement embedded in a one-line IF/WHERE/FORALL is a label-free copy; fixed-form label field within columns 1-5 (table).", "DESIGN.md §4 C19"),
+            "regenerated statements. Also: FortranParser.put_item pushes to the front of the reader's queue; tokenised text reaches a printed attribute only with the replace map undone (85 process_item methods, 26 reasoned name/label positions); the item of a statement embedded in a one-line IF/WHERE/FORALL is a label-free copy; fixed-form label field within columns 1-5 (table). Further: no blank squeezing / case folding after the replace map is undone.", "DESIGN.md §4 C19"),
 }
 
 NA = {
